@@ -2,7 +2,8 @@
 
 Case kinds
   {"kind":"pair", "fam":…, "how":"relabel"|"mutate"|"twin"|"indep", "g1":[[s,p,o]…], "g2":[…], "map":{l1:l2}|None}
-  {"kind":"skolem", "variant":"default"|"authority"|"per-bnode"|"new-graph", "g":[[s,p,o]…]}
+  {"kind":"skolem", "variant":"default"|"authority"|"per-bnode"|"new-graph"|"external-basepath"|"authority-basepath", "g":[…]}
+  {"kind":"skolem-big", "variant":…, "n":1500..2500, "hubs":1..3, "chain":bool, "salt":k}   large star forest built from the parameters
   {"kind":"exh", "n":n, "mask":m}      thorough tier: class representative of the digraphs (loops allowed) on n ≤ 4
                                        blank nodes with one predicate, against every other class of the same size
 Terms are strings: "_:label", "<iri>", '"lex"', '"lex"@lang', '"lex"^^<datatype>'.
@@ -40,7 +41,10 @@ CASES = {"quick": 380, "thorough": 12000, "search": 6000}
 RULE = ("pairs (g, relabel+shuffle g), (g, degree-preserving edge switch / edge move / predicate or ground-term change of g), "
         "known non-isomorphic regular twins, over cycles, bidirected cycles, K_{m,n}, disjoint (non-)identical components, "
         "prisms, cube, Moebius ladders, Petersen, CFI(C3), rdf lists, star-of-stars, random sparse graphs mixing IRIs / "
-        "literals / bnodes; skolemise->de-skolemise round trips; thorough adds every pair of digraph classes on <=4 bnodes. "
+        "literals / bnodes; skolemise->de-skolemise round trips (default / custom authority / custom basepath incl. the "
+        "external genid path; literals whose text is a skolem IRI, genid IRIs in predicate position, genid IRIs already "
+        "present = known finding; two star forests of 1500-2500 blank nodes per run whose hubs recur >1000 nodes apart); "
+        "thorough adds every pair of digraph classes on <=4 bnodes. "
         "non-trivial = some blank nodes are not separated by colour refinement alone (symmetric structure) or, for skolem "
         "cases, the graph has >=2 blank nodes; distinct = distinct (kind, family, how, colour-class profile, sizes)")
 ASSUMPTIONS = ["blank nodes do not occur in predicate position (not RDF)",
@@ -431,8 +435,11 @@ def gen_case(rng, tier, i):
     if tier == "thorough" and i < len(classes()):
         n, _e, _l, m = classes()[i]
         return {"kind": "exh", "n": n, "mask": m}
+    j = i - (len(classes()) if tier == "thorough" else 0)
+    if j in (3, 211) or (tier == "thorough" and j % 1500 == 7):
+        return gen_skolem_big(rng, "external-basepath" if j == 3 else rng.choice(["default", "external-basepath"]))
     r = rng.random()
-    if r < 0.12:
+    if r < 0.14:
         return gen_skolem(rng)
     if r < 0.20:
         name, fa, fb = rng.choice(TWINS)
@@ -472,6 +479,23 @@ def gen_multi(rng, fam, a, k):
 SK_LABELS = ["b%d", "N%dabcdef0123456789", "x.%d-y", "%d", "a:%d", "é%d", "_%d", "cb%d", "B_%d.z"]
 
 
+SK_VARIANTS = {   # variant -> (authority, basepath) given to Graph.skolemize (None = rdflib's default)
+    "default": (None, None), "per-bnode": (None, None), "new-graph": (None, None),
+    "authority": ("http://example.org/", None),
+    "external-basepath": ("http://example.org", GENID),          # de_skolemize takes the *external* genid branch
+    "authority-basepath": ("http://b.example", GENID_R),
+}
+LIT_KINDS = ['"%s"', '"%s"^^<' + XSD + 'anyURI>', '"%s"^^<' + XSD + 'string>', '"%s"@en']
+
+
+def genid_lookalikes(rng, lab):
+    """literals whose lexical form is a skolem IRI (rdflib's authority or a foreign one) — they are NOT skolem IRIs"""
+    own = (lab[rng.randrange(len(lab))][2:] if lab else "b0")
+    texts = ["https://rdflib.github.io%s%s" % (GENID_R, own), "http://example.org%s%s" % (GENID, own),
+             "http://a.example%sabc" % GENID, "http://a.example%sx1" % GENID_R, "http://example.org%s%s" % (GENID_R, own)]
+    return [rng.choice(LIT_KINDS) % rng.choice(texts) for _ in range(rng.randint(1, 3))]
+
+
 def gen_skolem(rng):
     fam = rng.choice(["sparse", "sparse", "cycle", "lists", "stars", "kmn"])
     a = FAMILIES[fam](rng)
@@ -486,7 +510,43 @@ def gen_skolem(rng):
             "<http://a.example%sx1?y=1>" % GENID_R])
         k = rng.randrange(len(g))
         g[k] = [iri, g[k][1], g[k][2]] if rng.random() < 0.5 else [g[k][0], g[k][1], iri]
-    return {"kind": "skolem", "variant": rng.choice(["default", "default", "authority", "per-bnode", "new-graph"]), "g": g}
+    if rng.random() < 0.45:
+        # look-alike literals in object position, next to real blank nodes (and on an IRI subject)
+        for lit in genid_lookalikes(rng, lab):
+            subj = rng.choice(lab) if lab and rng.random() < 0.8 else "<http://e/a>"
+            t = [subj, rng.choice([P, Q, "<http://e/seeAlso>"]), lit]
+            if t not in g:
+                g.append(t)
+    if rng.random() < 0.15 and g:
+        # an IRI that merely contains the genid path, in PREDICATE position (never touched by either function)
+        k = rng.randrange(len(g))
+        g[k] = [g[k][0], rng.choice(["<http://a.example%spred>" % GENID, "<https://rdflib.github.io%sp>" % GENID_R]), g[k][2]]
+    rng.shuffle(g)
+    variant = rng.choice(["default", "default", "authority", "per-bnode", "new-graph", "external-basepath",
+                          "external-basepath", "authority-basepath"])
+    return {"kind": "skolem", "variant": variant, "g": g}
+
+
+def gen_skolem_big(rng, variant):
+    """LARGE star/forest (1500-2500 blank nodes): a few hubs are the OBJECT of spokes inserted at the start, in the
+    middle and at the end, so that in the store's iteration order (by subject) each hub recurs after more than a
+    thousand other new nodes; spokes also carry an index literal.  Generated from the parameters in `run_impl`."""
+    return {"kind": "skolem-big", "variant": variant, "n": rng.randint(1500, 2500), "hubs": rng.randint(1, 3),
+            "chain": rng.random() < 0.5, "salt": rng.randrange(10 ** 6)}
+
+
+def big_graph(case):
+    n, hubs = case["n"], case["hubs"]
+    g = []
+    for i in range(n):
+        s = "_:s%d_%d" % (case["salt"], i)
+        g.append([s, P, "_:hub%d" % (i % hubs)])
+        g.append([s, Q, '"%d"' % (i % 7)])
+        if case["chain"] and i % 5 == 0 and i + 1 < n:
+            g.append([s, "<http://e/next>", "_:s%d_%d" % (case["salt"], i + 1)])
+    for h in range(hubs):
+        g.append(["_:hub%d" % h, Q, '"hub"'])
+    return g
 
 
 # ---------------------------------------------------------------- Lean encoding
@@ -551,14 +611,25 @@ def small(*gs):
     return all(len(bn_of(g)) <= LEAN_MAX for g in gs)
 
 
+def cps(s):
+    return ".".join(str(ord(c)) for c in s)
+
+
 def sk_term(x, lits):
-    def cps(s):
-        return ".".join(str(ord(c)) for c in s)
     if is_b(x):
         return "b:" + cps(x[2:])
     if x.startswith("<"):
         return "i:" + cps(x[1:-1])
-    return "l:%d" % lits.setdefault(x, len(lits))
+    lit = T(x)   # literal: lexical form + opaque tag for (datatype, language)
+    tag = lits.setdefault((str(lit.datatype), (lit.language or "").lower()), len(lits))
+    return "l:%d:%s" % (tag, cps(str(lit)))
+
+
+def skolem_line(case):
+    auth, base = SK_VARIANTS[case["variant"]]
+    lits = {}
+    return "skolem %s %s %s" % (cps((auth or "https://rdflib.github.io").rstrip("/")), cps(base or GENID_R),
+                                " ".join(sk_term(x, lits) for t in case["g"] for x in t))
 
 
 def pair_model_line(case):
@@ -575,8 +646,7 @@ def model_lines(case):
         l = pair_model_line(case)
         return [l, "diff"] if l else []
     if case["kind"] == "skolem":
-        lits = {}
-        return ["skolem " + " ".join(sk_term(x, lits) for t in case["g"] for x in t)]
+        return [skolem_line(case)]
     if case["kind"] == "exh":
         g, partners, rel = exh_graphs(case)
         return [iso_line(g, h) for h in partners + rel]
@@ -721,7 +791,8 @@ def b2s(b):
 
 def run_impl(case):
     _rearm_wall()
-    return {"pair": run_pair, "skolem": run_skolem, "exh": run_exh, "multi": run_multi}[case["kind"]](case)
+    return {"pair": run_pair, "skolem": run_skolem, "exh": run_exh, "multi": run_multi,
+            "skolem-big": run_skolem_big}[case["kind"]](case)
 
 
 def run_pair(case):
@@ -866,8 +937,9 @@ def run_skolem(case):
 
     def roundtrip():
         v = case["variant"]
-        if v == "authority":
-            sk = g.skolemize(authority="http://example.org/")
+        auth, base = SK_VARIANTS[v]
+        if auth is not None:
+            sk = g.skolemize(authority=auth, basepath=base)
         elif v == "per-bnode":
             sk = g
             for b in sorted({x for t in g for x in t if isinstance(x, BNode)}):
@@ -883,9 +955,15 @@ def run_skolem(case):
     if not ok:
         return {"obs": [], "viol": viol, "nontrivial": True, "key": "abort", "stats": stats}
     sk, back = r
+    if any(isinstance(x, Literal) and GENID in str(x) for t in g for x in t):
+        stats["skolem_with_genid_like_literal"] = 1
+    if any(GENID in t[1] for t in gs):
+        stats["skolem_with_genid_like_predicate"] = 1
     good = py_iso(back, set(g))
     if not good:
         viol.append("skolem: de_skolemize(skolemize(g)) is not isomorphic to g")
+    if {x for t in g for x in t if isinstance(x, Literal)} != {x for t in back for x in t if isinstance(x, Literal)}:
+        viol.append("skolem-literal: the round trip changed the set of literals of the graph")
     bs, gss = to_strs(back), to_strs(set(g))
     if small(bs, gss):
         got = drive([iso_line(bs, gss)])
@@ -895,6 +973,56 @@ def run_skolem(case):
     nb = len(bn_of(gs))
     return {"obs": ["skolem-roundtrip-iso " + b2s(good)], "viol": viol, "nontrivial": nb >= 2,
             "key": repr(("skolem", case["variant"], nb, len(set(map(tuple, gs))), has_genid, sorted(gs)[:3])), "stats": stats}
+
+
+def wl_profile(triples, rounds=3):
+    """multiset of colour-refinement signatures of the blank nodes (complete invariant on forests, which is what
+    `big_graph` builds: stars, optionally with chain links between spokes... see design.d/C14.md)"""
+    bn = {x for t in triples for x in (t[0], t[2]) if isinstance(x, BNode)}
+    col = {b: 0 for b in bn}
+    for _ in range(rounds):
+        sig = {b: [] for b in bn}
+        for s_, p_, o_ in triples:
+            if s_ in sig:
+                sig[s_].append(("o", str(p_), ("b", col[o_]) if o_ in col else ("t", o_.n3())))
+            if o_ in sig:
+                sig[o_].append(("i", str(p_), ("b", col[s_]) if s_ in col else ("t", s_.n3())))
+        col = {b: hash((col[b], tuple(sorted(sig[b])))) for b in bn}
+    cnt = {}
+    for c in col.values():
+        cnt[c] = cnt.get(c, 0) + 1
+    return cnt
+
+
+def run_skolem_big(case):
+    gs = big_graph(case)
+    g = mk_graph(gs)
+    viol, stats = [], {"skolem_big": 1, "skolem_big_" + case["variant"]: 1, "skolem_big_triples": len(gs)}
+    auth, base = SK_VARIANTS[case["variant"]]
+
+    def roundtrip():
+        sk = g.skolemize(authority=auth, basepath=base) if auth is not None else g.skolemize()
+        return set(sk), set(sk.de_skolemize())
+    ok, r = call(viol, "skolemize/de_skolemize (large graph)", roundtrip)
+    if not ok:
+        return {"obs": [], "viol": viol, "nontrivial": True, "key": "abort", "stats": stats}
+    sk, back = r
+    orig = set(g)
+
+    def bnodes(ts):
+        return {x for t in ts for x in (t[0], t[2]) if isinstance(x, BNode)}
+    if any(isinstance(x, BNode) for t in sk for x in t):
+        stats["skolem_big_bnodes_left_after_skolemize"] = 1
+    if len(back) != len(orig):
+        viol.append(f"skolem: round trip of a large graph changed the number of triples {len(orig)} -> {len(back)}")
+    elif len(bnodes(back)) != len(bnodes(orig)):
+        viol.append(f"skolem: round trip of a large graph changed the number of blank nodes {len(bnodes(orig))} -> "
+                    f"{len(bnodes(back))} (a node was split or two were merged)")
+    elif wl_profile(orig) != wl_profile(back):
+        viol.append("skolem: round trip of a large graph is not isomorphic to the input (refinement signatures of the "
+                    "blank nodes differ)")
+    return {"obs": [], "viol": viol, "nontrivial": True,
+            "key": repr(("skolem-big", case["variant"], case["n"], case["hubs"], case["chain"])), "stats": stats}
 
 
 def exh_graphs(case):
@@ -951,6 +1079,15 @@ def shrink(case):
             yield {**case, "g": g[:i] + g[i + 1:]}
         if case["variant"] != "default":
             yield {**case, "variant": "default"}
+        return
+    if case["kind"] == "skolem-big":
+        if case["n"] > 1100:
+            yield {**case, "n": max(1100, case["n"] // 2)}
+            yield {**case, "n": case["n"] - 100}
+        if case["hubs"] > 1:
+            yield {**case, "hubs": 1}
+        if case["chain"]:
+            yield {**case, "chain": False}
         return
     if case["kind"] == "multi":
         gs, maps = case["gs"], case["maps"]
